@@ -217,6 +217,15 @@ FIXED = [
     ("W1;i1;Fxd;i2;R;Fne;q;q;C", "none"),
 ]
 
+FIXED_RC = [
+    ("W3;W1;Fxd;i1;R;Fnd;q;q;Frd;R;Frd;R;b;R;q", "nopool", 6),
+    ("W3;W1;Fxd;i1;R;Fnd;q;q;Frd;R;Frd;R;b;R;q", "nopool", 7),
+    ("W3;W1;Fxd;i1;R;Fnd;q;q;Frd;R;Frd;R;b;R;q", "nopool", 5),
+    ("W2;X;N;q;X;N;q;X;N;q;X;N;q", "none", 3),
+    ("W2;X;N;q;X;N;q;X;N;q;X;N;q", "none", 4),
+    ("W1;Fxd;i1;W2;q;X;N;q;X;N;q", "none", 6),
+]
+
 
 def run(ctx, deep=False):
     from harness import lib_txn
@@ -225,7 +234,7 @@ def run(ctx, deep=False):
         "histories (<=10 ops quick, <=16 thorough, plus 15 scripted x 2 pool_recycle settings) of execute/begin/begin_nested/commit/rollback/handle ops/"
         "invalidate with extra pooled connections, a fault (disconnect or plain error) armed at cursor()/execute()/commit()/rollback() and at "
         "the pool's creator (failing reconnects followed by working ones and by plain errors) at random positions, x handle_error "
-        "listener in {none, passive, reclassify-as-disconnect, keep-pool} x pool_recycle in {unset, 3600, 6 clock ticks} x pool_pre_ping "
+        "listener in {none, passive, reclassify-as-disconnect, keep-pool} x pool_recycle in {unset, 3600, 6 or 3 clock ticks} x pool_pre_ping "
         "(12%, oracle only); every op's record compared with the Lean model and checked by the oracle; non-trivial = at least one "
         "fault fired or invalidate() was called"
     )
@@ -259,13 +268,18 @@ def run(ctx, deep=False):
         for rc in (None, 3600):
             recs, armed = replay_ops(ops, lis, recycle=rc)
             check(ops, recs, armed, lis, rc)
-    n = 15000 if big else 4000
+    # the age test at its boundary (a pooled connection exactly pool_recycle ticks old / one older)
+    for s, lis, rc in FIXED_RC:
+        ops = s.split(";")
+        recs, armed = replay_ops(ops, lis, recycle=rc)
+        check(ops, recs, armed, lis, rc)
+    n = 15000 if big else 2500
     maxlen = 16 if big else 10
     for i in range(n):
         lis = ctx.rng.choice(["none", "none", "passive", "force", "nopool"])
         # pool_recycle configured (far in the future, or a few clock ticks so that real
         # recycling happens) changes the path through _ConnectionRecord.get_connection
-        rc = ctx.rng.choice([None, None, 3600, 3600, 6])
+        rc = ctx.rng.choice([None, None, 3600, 3600, 6, 6, 3])
         pp = ctx.rng.random() < 0.12
         ops, recs, armed = run_history(ctx.rng, ctx.rng.randint(3, maxlen), lis, recycle=rc, pre_ping=pp)
         check(ops, recs, armed, lis, rc, pp)
